@@ -28,6 +28,8 @@ VIEWS = {
     "core::slice::<impl [T]>::as_mut_ptr",
     "core::array::<impl [T; N]>::as_slice",
     "core::array::<impl [T; N]>::as_mut_slice",
+    "generic_array::GenericArray::<T, N>::from_slice",
+    "generic_array::GenericArray::<T, N>::from_mut_slice",
     "generic_array::GenericArray::<T, N>::as_slice",
     "generic_array::GenericArray::<T, N>::as_mut_slice",
     "alloc::vec::Vec::<T, A>::as_slice",
@@ -1193,6 +1195,35 @@ class Interp:
             return None
         return t["t"]
 
+    def _bytes_of_iter(self, path, t, depth=0):
+        """Bytes yielded, in order, by an iterator term built from byte buffers with iter / into_iter / chain / copied / cloned."""
+        if depth > 6:
+            return None
+        if is_ptr(t):
+            c = self.argval(path, t)
+            return c[1] if (isinstance(c, tuple) and c and c[0] == "vec") else c
+        if isinstance(t, tuple) and t and t[0] == "call":
+            nm = t[1]
+            if re.search(r"(::iter$|IntoIterator>::into_iter$|IntoIterator for &.*>::into_iter$)", nm) and len(t[2]) == 1:
+                x = t[2][0]
+                if isinstance(x, tuple) and x and x[0] == "vec":
+                    return x[1]
+                return x if not is_ptr(x) else self._bytes_of_iter(path, x, depth + 1)
+            if re.search(r"Iterator>::(copied|cloned)(::<.*>)?$|Iterator::(copied|cloned)$", nm) and len(t[2]) == 1:
+                return self._bytes_of_iter(path, t[2][0], depth + 1)
+            if re.search(r"Iterator>::chain(::<.*>)?$|Iterator::chain$", nm) and len(t[2]) == 2:
+                a_ = self._bytes_of_iter(path, t[2][0], depth + 1)
+                b_ = self._bytes_of_iter(path, t[2][1], depth + 1)
+                if a_ is None or b_ is None:
+                    return None
+                return concat(a_, b_)
+            return None
+        if isinstance(t, tuple) and t and t[0] == "vec":
+            return t[1]
+        if isinstance(t, tuple) and t and t[0] not in ("agg", "unknown", "uninit"):
+            return t          # an already dereferenced byte buffer (IntoIterator for &[u8; N] / &Vec<u8> as the chained operand)
+        return None
+
     def _try_for_each(self, ctx, path, elems, env, cf, dest, t, visited, out, site, blk, name):
         if not elems:
             self.write(path, dest, ("agg", "adt:Result::Ok", (("agg", "tuple", ()),)))
@@ -1391,6 +1422,16 @@ class Interp:
         ext_full = ce.get("full", "")
         is_extend_bytes = (p == "core::iter::traits::collect::Extend::extend" and len(args) == 2
                            and re.match(r"<alloc::vec::Vec<u8> as core::iter::traits::collect::Extend<(&(?:'\w+ )?)?u8>>::extend::<(&(?:'\w+ )?)?(\[u8; \d+\]|\[u8\]|alloc::vec::Vec<u8>)>$", ext_full))
+        if p == "core::iter::traits::collect::Extend::extend" and len(args) == 2 and not is_extend_bytes \
+                and ext_full.startswith("<alloc::vec::Vec<u8> as core::iter::traits::collect::Extend<"):
+            # v.extend(a.iter().chain(&b).chain(&c)) / .copied(): an iterator over byte buffers, in order
+            flat = self._bytes_of_iter(path, args[1])
+            if flat is not None and is_ptr(a0):
+                loc = ("V", a0[1])
+                old = self.content(path, loc)
+                self.write(path, loc, concat(old, flat))
+                self.event(path, "append", name, ce, args, site, blk, dest_ty, ctx, {"data": flat, "target": loc})
+                return ("unit",)
         if p == "alloc::vec::Vec::<T, A>::extend_from_slice" or is_extend_bytes:
             # (Vec<u8> as Extend).extend(bytes) with a byte array / slice / Vec: appends exactly those bytes, in order
             loc = ("V", a0[1]) if is_ptr(a0) else None
